@@ -143,7 +143,49 @@ func main() {
 	fmt.Println(2, sum)
 }
 `,
-	"privsel": `
+	// form K = 0: the value sent by the select is computed before the statement
+	"privsel0": `
+var wg sync.WaitGroup
+
+func sworker(id int, in chan int, quit chan int) {
+	acc := 0
+	for {
+		select {
+		case v := <-in:
+			acc = acc + v
+		case <-quit:
+			fmt.Println(id, acc)
+			wg.Done()
+			return
+		}
+	}
+}
+
+func feeder(id int, in chan int, quit chan int, stop chan int, m int) {
+	for j := 1; j <= m; j++ {
+		x := id*10 + j
+		select {
+		case in <- x:
+		case <-stop:
+		}
+	}
+	quit <- 1
+}
+
+func main() {
+	wg.Add(N)
+	for i := 1; i <= N; i++ {
+		in := make(chan int)
+		quit := make(chan int, B)
+		stop := make(chan int)
+		go sworker(i, in, quit)
+		go feeder(i, in, quit, stop, M)
+	}
+	wg.Wait()
+}
+`,
+	// form K = 1: the value is an expression inside the comm clause
+	"privsel1": `
 var wg sync.WaitGroup
 
 func sworker(id int, in chan int, quit chan int) {
@@ -201,7 +243,9 @@ func cworker(id int, m int) {
 func main() {
 	wg.Add(N)
 	for i := 1; i <= N; i++ {
-		go cworker(i, M)
+		r := M
+		go cworker(i, r)
+		r = 0
 	}
 	wg.Wait()
 	t := cnt
@@ -216,6 +260,7 @@ func main() {
 	cnt := 0
 	wg.Add(N)
 	for i := 1; i <= N; i++ {
+		r := M
 		go func(id int, m int) {
 			for j := 1; j <= m; j++ {
 				mu.Lock()
@@ -224,7 +269,8 @@ func main() {
 				mu.Unlock()
 			}
 			wg.Done()
-		}(i, M)
+		}(i, r)
+		r = 0
 	}
 	wg.Wait()
 	t := cnt
@@ -359,8 +405,8 @@ func main() {
 
 func (i inst) body() string {
 	switch i.T {
-	case "counter":
-		return sources[fmt.Sprintf("counter%d", i.K)]
+	case "counter", "privsel":
+		return sources[fmt.Sprintf("%s%d", i.T, i.K)]
 	}
 	return sources[i.T]
 }
